@@ -23,7 +23,7 @@ ASSUMPTIONS = [
     "the symbolic unitary block is written into the UnitaryMatrix component directly (check_unitary bypassed): the amplitude identity does not depend on unitarity",
 ]
 BOUNDS = {
-    "quick": "(2 modes: up to 4 photons) n<=3 visible modes + <=2 heralds (photon numbers 0..2, in != out allowed) + <=2 loss elements, inputs with <=3 photons (bunched, vacuum), explicit and generated output lists; unit-vector: 4 lossless layouts of symbolic bs/ps on <=3 modes, <=2 photons",
+    "quick": "(2 modes: up to 4 photons) n<=3 visible modes + <=2 heralds (photon numbers 0..2, in != out allowed) + <=2 loss elements, inputs with <=3 photons (bunched, vacuum), explicit and generated output lists, lists that repeat a state, circuits whose two modes are both heralded; unit-vector: 4 lossless layouts of symbolic bs/ps on <=3 modes, <=2 photons",
     "thorough": "n<=4 visible modes, <=4 photons in total; unit-vector up to 3 photons",
 }
 OUTSIDE = "thewalrus itself; photon numbers above the bound; float rounding; validation of malformed states is decided by the CrossHair conditions xh/c03_validation.py"
